@@ -39,6 +39,7 @@ def strategy(tier):
         max_machines=6 if big else 5,
         max_total=36 if big else 25,
         benchmarks=("ft06", "la01") if big else ("ft06",),
+        big_ok=True,
     )
     seq = st.fixed_dictionaries(
         {
@@ -141,6 +142,23 @@ def _sequence(case, ctx):
         jf, mf = model.job_free(j), model.machine_free(m)
         job_decisive |= jf > mf
         machine_decisive |= mf > jf
+        if a % 2 == 0:
+            # read-only queries between dispatches, in generated order
+            qs = [(jj, pp, mm) for (jj, pp) in model.ready() for mm in inst["machines"][jj][pp]]
+            if b % 2:
+                qs.reverse()
+            for jj, pp, mm in qs:
+                got = d.start_time(drv.op(jj, pp), mm)
+                ctx.check(
+                    got == model.start(jj, mm),
+                    "start_time-query",
+                    f"step {k}: Dispatcher.start_time(({jj},{pp}),{mm}) = {got} != {model.start(jj, mm)}",
+                )
+            ctx.check(
+                d.current_time() == model.min_start(model.ready()),
+                "current_time-query",
+                f"step {k}: current_time() {d.current_time()} != {model.min_start(model.ready())}",
+            )
         st_real = d.start_time(drv.op(j, p), m)
         ctx.check(
             st_real == max(jf, mf),
